@@ -510,6 +510,13 @@ def _defer_to_sf(cls, name):
     setattr(cls, name, op)
 
 
+def _int_and(self, o):
+    """x & 2^i for a non-negative symbolic integer x: the i-th bit, kept as 2^i or 0 (the only use of & on integers in the sources)"""
+    if isinstance(o, bool) or not isinstance(o, int) or o <= 0 or (o & (o - 1)) != 0 or not z3.is_int(self):
+        raise Unsupported("bitwise and of a symbolic integer with anything but a power of two")
+    return z3.If(_z3_arith_div(self, z3.IntVal(o)) % 2 == 1, z3.IntVal(o), z3.IntVal(0))
+
+
 _z3_arith_div = z3.ArithRef.__div__          # z3's own division (integer div on Int operands), before patching
 
 
@@ -542,3 +549,7 @@ def _expr_ne(self, other):
 z3.ExprRef.__eq__ = _expr_eq
 z3.ExprRef.__ne__ = _expr_ne
 z3.ExprRef.__hash__ = lambda self: z3.AstRef.__hash__(self)
+
+
+z3.ArithRef.__and__ = _int_and
+z3.ArithRef.__rand__ = _int_and
